@@ -165,6 +165,9 @@ def _r(file, func, kind, expr, why):
 
 _r("sigma/correlations.py", "SigmaCorrelationCondition.from_dict", "for", "SigmaCorrelationConditionOperator.operators()",
    "commutative: exactly one operator key is present (checked three lines above), the loop only finds it")
+_r("sigma/correlations.py", "SigmaCorrelationCondition.from_dict", "comp", "unknown_keys",
+   "sorted: the generator over the set is the argument of sorted(), the join sees a sorted list (keys are "
+   "stringified first so that non-string keys give a Sigma error instead of TypeError)")
 _r("sigma/exceptions.py", "SigmaRuleLocation.__str__", "str", "str(self.path.resolve())",
    "not-a-set: pathlib.Path.resolve(), the heuristic knows a set-returning function of the same name")
 _r("sigma/filters.py", "SigmaFilter.apply_on_rule", "draw", "random.choices(string.ascii_lowercase, k=10)",
